@@ -7,9 +7,11 @@
 package main
 
 import (
+	"bytes"
 	"fmt"
 	"go/ast"
 	"go/constant"
+	"go/printer"
 	"go/token"
 	"go/types"
 	"os"
@@ -129,6 +131,14 @@ var srcTargets = []srcTarget{
 	{Group: "Decode", Name: "DecodeAuthorizationResponseClaims", Only: "V2"},
 	{Group: "Decode", Recv: "ClaimsData", Name: "verify", Only: "V2"},
 	{Group: "Decode", Name: "DecodeGeneric", Only: "V2"},
+	{Group: "Decode", Name: "loadActivation", Only: "V2"},
+	{Group: "Decode", Name: "loadUser", Only: "V2"},
+	{Group: "Decode", Name: "loadAccount", Only: "V2"},
+	{Group: "Decode", Name: "loadOperator", Only: "V2"},
+	{Group: "Decode", Recv: "v1ActivationClaims", Name: "migrateV1", Only: "V2"},
+	{Group: "Decode", Recv: "v1UserClaims", Name: "migrateV1", Only: "V2"},
+	{Group: "Decode", Recv: "v1OperatorClaims", Name: "migrateV1", Only: "V2"},
+	{Group: "Decode", Recv: "v1AccountClaims", Name: "migrateV1", Only: "V2"},
 	{Group: "DecodeV1", Recv: "Header", Name: "Valid", Only: "V1"},
 	{Group: "DecodeV1", Name: "parseHeaders", Only: "V1"},
 	{Group: "DecodeV1", Name: "parseClaims", Only: "V1"},
@@ -210,39 +220,40 @@ type absParam struct {
 }
 
 type tr struct {
-	info       *types.Info
-	fset       *token.FileSet
-	names      map[types.Object]string // local variable / parameter -> Coq name
-	used       map[string]bool
-	k          int
-	recv       *types.Var
-	fieldTy    map[string]string // observation of an abstract value (Coq parameter name) -> Coq type
-	fieldOrder []string
-	roots      map[types.Object]string     // abstract values (struct receiver, struct-pointer / interface parameters, type-assertion results) -> name prefix
-	absParams  map[types.Object][]absParam // per translated function: its observation parameters, relative to its receiver
-	retTy      string
-	resTy      string                  // the Go result alone (retTy adds the mutated receiver)
-	resTys     []string                // the Go results one by one
-	known      map[types.Object]string // translated functions of this package -> Coq name
-	mutates    map[types.Object]bool   // known functions that return the updated receiver first
-	mut        bool                    // this function assigns through its receiver (slice behind a pointer, or map)
-	mapKey     []types.Object          // range key variables of enclosing map ranges
-	wrap       func(string) string     // a Go result -> the complete return value (adds the updated receiver)
-	vr         types.Object            // a *ValidationResults parameter: the list of issues so far, returned extended
-	returnsVr  map[types.Object]bool   // translated functions that take and return the issue list
-	localVR    map[types.Object]bool   // local variables holding validation results of their own (tvr := CreateValidationResults())
-	stateVar   map[string]*types.Var   // fields of the abstract receiver that the body stores into, held as data (maps, lists, texts, numbers): path name -> variable carrying the current value
-	stateOrder []string
-	stateFirst map[string]token.Pos  // where the body first stores into each of them
-	globalUse  map[string]string     // callee observation handed on as a global -> the abstract values the callee was called with
-	freshLocal map[types.Object]bool // local variables holding an opaque value just made by a function of an imported package (h := sha256.New())
-	myAbs      []absParam            // this function's observations of its own receiver
-	paramRoot  map[string]int        // abstract parameters: name -> position
-	effects    bool                  // the body assigns fields of abstract values or calls their methods for effect
-	logVar     *types.Var            // ... then this pseudo-variable holds the log of those effects
-	setFields  map[string]bool       // observation names of fields assigned so far
-	foreignObs bool                  // it also observes an abstract parameter
-	dropNil    bool                  // the function's only result is an error that is nil on every path: dropped
+	info        *types.Info
+	fset        *token.FileSet
+	names       map[types.Object]string // local variable / parameter -> Coq name
+	used        map[string]bool
+	k           int
+	recv        *types.Var
+	fieldTy     map[string]string // observation of an abstract value (Coq parameter name) -> Coq type
+	fieldOrder  []string
+	roots       map[types.Object]string     // abstract values (struct receiver, struct-pointer / interface parameters, type-assertion results) -> name prefix
+	absParams   map[types.Object][]absParam // per translated function: its observation parameters, relative to its receiver
+	retTy       string
+	resTy       string                  // the Go result alone (retTy adds the mutated receiver)
+	resTys      []string                // the Go results one by one
+	known       map[types.Object]string // translated functions of this package -> Coq name
+	mutates     map[types.Object]bool   // known functions that return the updated receiver first
+	mut         bool                    // this function assigns through its receiver (slice behind a pointer, or map)
+	mapKey      []types.Object          // range key variables of enclosing map ranges
+	wrap        func(string) string     // a Go result -> the complete return value (adds the updated receiver)
+	vr          types.Object            // a *ValidationResults parameter: the list of issues so far, returned extended
+	returnsVr   map[types.Object]bool   // translated functions that take and return the issue list
+	localVR     map[types.Object]bool   // local variables holding validation results of their own (tvr := CreateValidationResults())
+	stateVar    map[string]*types.Var   // fields of the abstract receiver that the body stores into, held as data (maps, lists, texts, numbers): path name -> variable carrying the current value
+	stateOrder  []string
+	stateFirst  map[string]token.Pos  // where the body first stores into each of them
+	globalUse   map[string]string     // callee observation handed on as a global -> the abstract values the callee was called with
+	storedLocal map[types.Object]bool // fresh locals the body has stored into (json.Unmarshal into one of them starts from what was stored)
+	freshLocal  map[types.Object]bool // local variables holding an opaque value just made by a function of an imported package (h := sha256.New())
+	myAbs       []absParam            // this function's observations of its own receiver
+	paramRoot   map[string]int        // abstract parameters: name -> position
+	effects     bool                  // the body assigns fields of abstract values or calls their methods for effect
+	logVar      *types.Var            // ... then this pseudo-variable holds the log of those effects
+	setFields   map[string]bool       // observation names of fields assigned so far
+	foreignObs  bool                  // it also observes an abstract parameter
+	dropNil     bool                  // the function's only result is an error that is nil on every path: dropped
 }
 
 func (t *tr) fail(n ast.Node, f string, a ...interface{}) {
@@ -1523,6 +1534,14 @@ func (t *tr) assigned(n ast.Node) []*types.Var {
 		case *ast.ExprStmt:
 			// delete(m, k) and calls of methods that update their receiver
 			if c, ok := s.X.(*ast.CallExpr); ok {
+				if f, ok := c.Fun.(*ast.SelectorExpr); ok {
+					if root, _, key, ok := t.freshStore(f.X); ok && key == nil {
+						if v, isVar := root.(*types.Var); isVar && !seen[v] {
+							seen[v] = true
+							out = append(out, v)
+						}
+					}
+				}
 				if f, ok := c.Fun.(*ast.SelectorExpr); ok && f.Sel.Name == "WriteString" {
 					if id, ok := f.X.(*ast.Ident); ok && t.info.Uses[id] != nil && isStringsBuilder(t.info.Uses[id].Type()) {
 						add(f.X)
@@ -1763,6 +1782,13 @@ func (t *tr) block0(stmts []ast.Stmt, c sctx, ind string) string {
 					val = t.expr(vs.Values[i])
 				} else {
 					val = t.zero(id, t.info.Defs[id].Type())
+					if _, isStruct := t.info.Defs[id].Type().Underlying().(*types.Struct); isStruct && isAbstractType(t.info.Defs[id].Type()) {
+						// var x T for an opaque struct: a fresh value of the function's own (stores into it rebind it)
+						if t.freshLocal == nil {
+							t.freshLocal = map[types.Object]bool{}
+						}
+						t.freshLocal[t.info.Defs[id]] = true
+					}
 				}
 				out += "let " + t.bind(t.info.Defs[id]) + " := " + val + " in" + nl
 			}
@@ -1814,6 +1840,10 @@ func (t *tr) block0(stmts []ast.Stmt, c sctx, ind string) string {
 		// x.A.B = e, x.A.B[k] = e for a fresh opaque local x: x becomes an unknown function of the old x and what is stored
 		if len(x.Lhs) == 1 && len(x.Rhs) == 1 && x.Tok == token.ASSIGN {
 			if root, path, key, ok := t.freshStore(x.Lhs[0]); ok {
+				if t.storedLocal == nil {
+					t.storedLocal = map[types.Object]bool{}
+				}
+				t.storedLocal[root] = true
 				local := t.names[root]
 				tys := []string{"go_val"}
 				as := []string{local}
@@ -1825,6 +1855,11 @@ func (t *tr) block0(stmts []ast.Stmt, c sctx, ind string) string {
 				}
 				if call, ok := x.Rhs[0].(*ast.CallExpr); ok && isBuiltinMake(t, call) {
 					name += "_make" // a new empty map / list of a type that is not translated: nothing to hand over
+				} else if lit, ok := x.Rhs[0].(*ast.CompositeLit); ok && isAbstractType(t.info.TypeOf(lit)) {
+					// a struct literal of a type that is not translated: what is stored is named by how it is written
+					var src bytes.Buffer
+					printer.Fprint(&src, t.fset, lit)
+					name += "_lit_" + strings.Trim(regexp.MustCompile(`[^A-Za-z0-9]+`).ReplaceAllString(src.String(), "_"), "_")
 				} else {
 					vt := t.coqType(x.Rhs[0], t.info.TypeOf(x.Rhs[0]))
 					tys = append(tys, vt)
@@ -2019,8 +2054,15 @@ func (t *tr) block0(stmts []ast.Stmt, c sctx, ind string) string {
 						if pn, ok := t.info.Uses[id].(*types.PkgName); ok && pn.Imported().Path() == "encoding/json" {
 							if u, ok := call.Args[1].(*ast.UnaryExpr); ok && u.Op == token.AND {
 								if vid, ok := u.X.(*ast.Ident); ok && t.names[t.info.Uses[vid]] != "" && isAbstractType(t.info.Uses[vid].Type()) {
-									fn := t.observe("go_json_Unmarshal_"+typeShortName(t.info.Uses[vid].Type()), "(string -> (go_val * (option string)))")
 									vn := t.names[t.info.Uses[vid]]
+									if t.storedLocal[t.info.Uses[vid]] {
+										// into a value the body has stored presets into: members the text does not name keep them - an
+										// unknown function of that value and the text
+										fn := t.observe("go_json_Unmarshal_into_"+typeShortName(t.info.Uses[vid].Type()), "(go_val -> string -> (go_val * (option string)))")
+										en := t.lhsName(x.Lhs[0], x.Tok == token.DEFINE)
+										return "let '(" + vn + ", " + en + ") := (" + fn + " " + vn + " " + t.expr(call.Args[0]) + ") in" + nl + t.block(rest, c, ind)
+									}
+									fn := t.observe("go_json_Unmarshal_"+typeShortName(t.info.Uses[vid].Type()), "(string -> (go_val * (option string)))")
 									en := t.lhsName(x.Lhs[0], x.Tok == token.DEFINE)
 									return "let '(" + vn + ", " + en + ") := (" + fn + " " + t.expr(call.Args[0]) + ") in" + nl + t.block(rest, c, ind)
 								}
@@ -2300,6 +2342,27 @@ func (t *tr) block0(stmts []ast.Stmt, c sctx, ind string) string {
 		// h.Write(b) for a local variable h holding an opaque value of an imported type that was made by a function of
 		// that package (h := sha256.New()): the call may change the value - h becomes an unknown function of the old h and
 		// the arguments; what the call returns is dropped
+		// x.A.B.M(args) for a fresh opaque local x: a method called for effect on a part of it - x becomes an unknown function of
+		// the old x and the arguments
+		if call, ok := x.X.(*ast.CallExpr); ok {
+			if f, ok := call.Fun.(*ast.SelectorExpr); ok {
+				if root, path, key, ok := t.freshStore(f.X); ok && key == nil {
+					local := t.names[root]
+					tys := []string{"go_val"}
+					as := []string{local}
+					for _, a := range call.Args {
+						tys = append(tys, t.coqType(a, t.info.TypeOf(a)))
+						as = append(as, t.expr(a))
+					}
+					name := t.observe("obs_"+typeShortName(root.Type())+"_call_"+path+"_"+f.Sel.Name, "("+strings.Join(append(tys, "go_val"), " -> ")+")")
+					if t.storedLocal == nil {
+						t.storedLocal = map[types.Object]bool{}
+					}
+					t.storedLocal[root] = true
+					return "let " + local + " := (" + name + " " + strings.Join(as, " ") + ") in" + nl + t.block(rest, c, ind)
+				}
+			}
+		}
 		if call, ok := x.X.(*ast.CallExpr); ok {
 			if f, ok := call.Fun.(*ast.SelectorExpr); ok {
 				if id, ok := f.X.(*ast.Ident); ok && t.freshLocal[t.info.Uses[id]] {
